@@ -19,6 +19,7 @@ def run(c):
     r2(c)
     r3(c)
     r4(c)
+    r5(c)
 
 
 def _bucket_of(pv, e):
@@ -83,11 +84,28 @@ def r1(c):
             elif isinstance(src, ast.BinOp) and isinstance(src.op, ast.Sub):
                 shape = (src.left, src.right)
             elif isinstance(arg0, ast.Name):
-                # `added -= ...` refinements keep the difference as one of the reaching definitions
+                # `added -= ...` refinements keep the difference as one of the reaching definitions; every other definition must only shrink the set
+                widened = None
                 for d in pv.rd.defs(arg0):
                     v = d.value
                     if d.kind == "assign" and isinstance(v, ast.Call) and isinstance(v.func, ast.Attribute) and v.func.attr == "difference":
                         shape = (v.func.value, v.args[0])
+                    elif d.kind == "assign" and isinstance(v, ast.BinOp) and isinstance(v.op, ast.Sub) and not (isinstance(v.left, ast.Name) and v.left.id == arg0.id):
+                        shape = (v.left, v.right)
+                    elif d.kind == "aug" and isinstance(d.stmt, ast.AugAssign) and isinstance(d.stmt.op, (ast.Sub, ast.BitAnd)):
+                        pass
+                    elif d.kind == "assign" and isinstance(v, ast.BinOp) and isinstance(v.op, (ast.Sub, ast.BitAnd)) and isinstance(v.left, ast.Name) and v.left.id == arg0.id:
+                        pass
+                    elif d.kind == "mut" and isinstance(v, ast.Call) and isinstance(v.func, ast.Attribute) and v.func.attr in ("difference_update", "intersection_update", "discard", "remove"):
+                        pass
+                    else:
+                        widened = d
+                if widened is not None and shape is not None:
+                    wv = widened.value if widened.value is not None else widened.stmt
+                    c.violated("C11.R1", repo.loc(m, widened.stmt or col), f"{vendor}._process_vlandb/{arm}", f"the set listed by the {arm} command is redefined by `{norm(wv)[:70]}` after the "
+                               f"set difference: it may hold VLANs outside {'old − new' if arm == 'removal' else 'new − old'} (ids present in both sets, or in lines that do not change, "
+                               f"would be {'removed' if arm == 'removal' else 're-added'})", key_text=f"{arm}-widened")
+                    continue
             if shape is None:
                 c.violated("C11.R1", repo.loc(m, col), f"{vendor}._process_vlandb/{arm}", f"the {arm} command lists `{norm(src)[:60]}`, which is not a set difference of the old and new VLAN sets", key_text=f"{arm}-not-difference")
                 continue
@@ -220,3 +238,29 @@ def r4(c):
         at = G.atoms(f)
         ok = any("REMOVED" in a for a in at) and any("intersection" in a for a in at) and any("'vlan'" in a for a in at)
     c.check("C11.R4", ok, repo.loc(m, fn), "huawei.vlan_diff/demote-removed", "a removed `vlan N` that stays in `vlan batch` is not demoted to AFFECTED", key_text="demote")
+
+
+def r5(c):
+    from sa.cachealias import CachedMutables, is_memoised
+    repo = c.repo
+    c.rule("C11.R5", "the VLAN sets parsed from config rows are private to one diff: no set produced by a memoised expand helper of annlib.lib (directly, or handed on through "
+                     "_parse_vlancfg / _parse_vlancfg_actions return values) is mutated (update/add/-=/...) by the vlandb code — a memoised function returns the same object to "
+                     "every caller, so an in-place union would leak VLANs of one port's list into every later list written with the same range text")
+    LIB = "annet.annlib.lib"
+    lm = repo.module(LIB)
+    helpers = [q for q, f in lm.defs.items() if isinstance(f, ast.FunctionDef) and q.endswith("_expand_vlandb")]
+    c.floor("C11.R5", "expand helpers", len(helpers), 2)
+    cmz = CachedMutables(repo, [LIB] + list(MODS.values()))
+    c.analysed["memoised_mutable_sources"] = sorted(v[1] for v in cmz.sources.values())
+    c.analysed["carriers"] = sorted(f"{v[0].name}:{v[1]}" for v in cmz.tainted.values())
+    sinks = cmz.sinks()
+    for q in helpers:
+        f = lm.defs[q]
+        c.count("functions")
+        mine = [s_ for s_ in sinks if s_[3] == q]
+        if not mine:
+            c.holds("C11.R5", repo.loc(lm, f), f"lib.{q}", "not memoised" if not is_memoised(f) else "memoised, but no caller mutates its result", trivial=not is_memoised(f))
+        for m, fq, node, src in mine:
+            c.violated("C11.R5", repo.loc(m, node), f"{m.name.split('.', 1)[-1]}:{fq}", f"`{norm(node)[:60]}` mutates a set that may be the memoised result of lib.{src}: the ids merged into it "
+                       "stay in the cache entry of that range text, and every later diff in this process that contains the same text sees them (VLANs present in both "
+                       "sets are removed / re-added)", key_text=f"mutates-cached:{src}")
